@@ -151,6 +151,60 @@ impl Aggregator {
         self.process(from_sync).is_some()
     }
 
+    /// Verification hook: like `verif_process`, and reports what the derived event carried:
+    /// `(kind, session sent bytes, session received bytes, topic sent total, topic received
+    /// total, topic sessions, is error, is live phase)`.
+    #[cfg(p2panda_p2panda_verif)]
+    #[allow(clippy::type_complexity)]
+    pub fn verif_process_observed<E: Extensions>(
+        &mut self,
+        from_sync: FromSync<TopicLogSyncEvent<E>>,
+    ) -> Option<(&'static str, u32, u32, u32, u32, u32, bool, bool)> {
+        match self.process(from_sync)? {
+            SyncEvent::SyncStarted { topic_sessions, .. } => {
+                Some(("SyncStarted", 0, 0, 0, 0, topic_sessions, false, false))
+            }
+            SyncEvent::SyncEnded {
+                sent_bytes,
+                received_bytes,
+                sent_bytes_topic_total,
+                received_bytes_topic_total,
+                error,
+                ..
+            } => Some((
+                "SyncEnded",
+                sent_bytes,
+                received_bytes,
+                sent_bytes_topic_total,
+                received_bytes_topic_total,
+                0,
+                error.is_some(),
+                false,
+            )),
+            SyncEvent::OperationReceived { source, .. } => match source {
+                Source::SyncSession {
+                    sent_bytes,
+                    received_bytes,
+                    sent_bytes_topic_total,
+                    received_bytes_topic_total,
+                    phase,
+                    ..
+                } => Some((
+                    "OperationReceived",
+                    sent_bytes,
+                    received_bytes,
+                    sent_bytes_topic_total,
+                    received_bytes_topic_total,
+                    0,
+                    false,
+                    matches!(phase, SessionPhase::Live),
+                )),
+                #[allow(unreachable_patterns)]
+                _ => None,
+            },
+        }
+    }
+
     pub fn running_sessions(&self) -> u32 {
         self.running_sessions
     }
